@@ -4,7 +4,8 @@ from __future__ import annotations
 from ..core import Report
 from ..model import DIST, Program
 from ..refs import eval_ref_method
-from ..terms import C, Interp, find_unknown, has_unknown, show, walk
+from ..eqterms import equal
+from ..terms import C, Interp, find_unknown, has_unknown, is_const, show, walk
 from .bij import SELF, method_site
 from .c07 import compare
 from .lints import rule_truthy
@@ -91,6 +92,40 @@ PROTECTED = {
     "ndim": "def ndim(self):\n    return len(self.shape)\n",
     "cond_ndim": "def cond_ndim(self):\n    return None if self.cond_shape is None else len(self.cond_shape)\n",
 }
+
+
+def _vectorize_by_regimes(prog, c, meth):
+    """-> [(regime name, equal?, got, want)] or None when some regime does not fold to a closed term."""
+    import ast as _ast
+    from ..refs import prelude
+    from ..terms import Env, NONE, has_unknown, subst
+    FZ = ("ext", "builtins.frozenset")
+
+    def norm(t):
+        def f(s_):
+            if s_[0] == "call" and s_[1] == FZ and not s_[3]:
+                if not s_[2]:
+                    return ("call", FZ, (("tuple", ()),), ())
+                if len(s_[2]) == 1 and s_[2][0][0] in ("list", "tuple") and all(is_const(x) for x in s_[2][0][1]):
+                    return ("call", FZ, (("tuple", tuple(sorted(set(s_[2][0][1]), key=repr))),), ())
+            return None
+        return subst(t, f)
+    out = []
+    noin = {"flowjax.utils._get_ufunc_signature"}
+    for nm, cs, nd in (("None", NONE, NONE), ("()", ("tuple", ()), C(0)), ("(n,)", ("tuple", (("sym", "CD"),)), C(1))):
+        it = Interp(prog, no_inline=noin)
+        it.self_fields = {"cond_shape": cs, "cond_ndim": nd}
+        got = it.eval_method(c, "_vectorize", [meth])
+        it2 = Interp(prog, no_inline=noin)
+        it2.self_fields = {"cond_shape": cs, "cond_ndim": nd}
+        want = it2.apply_def(_ast.parse(VECTORIZE_REF).body[0], Env(prelude(prog)), (c.module, c, SELF), [SELF, meth], {})
+        if has_unknown(got) or has_unknown(want) or any(
+                s_[0] == "attr" and s_[1] == SELF and s_[2] in ("cond_shape", "cond_ndim") for s_ in walk(got)):
+            return None
+        if any(s_[0] == "ite" for s_ in walk(got)):
+            return None
+        out.append((nm, equal(norm(got), norm(want)), got, want))
+    return out
 
 
 def rule_no_override(prog, rep):
@@ -198,6 +233,17 @@ def run(prog: Program, rep: Report, tier: str):
     rule_public_lift(prog, rep, "C06.lift")
     for core in ("_log_prob", "_sample", "_sample_and_log_prob"):
         meth = ("attr", SELF, core)
+        # first choice: the vectoriser depends on cond_shape only through `is None` / truthiness / length tests, so it
+        # is decided on the three regimes cond_shape None / () / (n,) (cond_ndim None / 0 / 1 - the property itself is
+        # pinned by C06.no-override), where every such test folds to a constant
+        res = _vectorize_by_regimes(prog, c, meth)
+        if res is not None:
+            bad = [(nm, g, w) for nm, ok, g, w in res if not ok]
+            rep.check(not bad, "C06.lift", method_site(prog, c, "_vectorize"), f"AbstractDistribution._vectorize({core})",
+                      "equal to the documented vectoriser for cond_shape None, () and (n,)",
+                      bad and f"for cond_shape {bad[0][0]} the vectoriser for {core} is {show(bad[0][1], 200)}; "
+                              f"documented: {show(bad[0][2], 200)}")
+            continue
         got = Interp(prog, no_inline={"flowjax.utils._get_ufunc_signature"}).eval_method(c, "_vectorize", [meth])
         want = eval_ref_method(prog, c, VECTORIZE_REF, [meth], no_inline={"flowjax.utils._get_ufunc_signature"})
         compare(rep, "C06.lift", method_site(prog, c, "_vectorize"), f"AbstractDistribution._vectorize({core})",
